@@ -10,6 +10,7 @@ import (
 	"strings"
 	"sync"
 	"sync/atomic"
+	"time"
 
 	"github.com/enbility/spine-go/api"
 	"github.com/enbility/spine-go/model"
@@ -35,6 +36,16 @@ import (
 //	usecases  the four use-case mutators on two local entities + use-case replies of a peer
 //	race      (-race binary) reader goroutines json.Marshal the retained values in a loop while the writer
 //	          applies the history: a report between a reader and spine-go/model is a C11 violation
+//
+// Observer effect. A DataCopy is itself an operation on the store: a stack that clones its lists lazily
+// ("only if a copy was handed out since the last store") behaves perfectly for a monitor that reads after
+// every update, and wrongly for an application that only keeps what it is GIVEN. A third of the list
+// histories (also in the race part) are therefore BLIND: the monitor retains nothing but the payloads of
+// the data-change events (core sink), the Data of response callbacks and the values UpdateData returns,
+// re-fingerprints them after every update (which does not touch the store) and reads the store for the
+// first time when the history is over. Blind histories start with a full data set delivered through the
+// path under test (full reply/notify, full remote write, full UpdateData) and prefer, right after a full
+// update, the shapes the model applies to the items in place (selector, identifier-less, delete elements).
 
 func init() {
 	nl := len(rig.DiscoverLists())
@@ -43,14 +54,16 @@ func init() {
 		Floor: 150,
 		Rule: "lists: case = (list function, block): histories of 6-10 updates drawn with C02's generator (all eight shapes, identifier domain 4) through one of the paths remote-api (each update first tried with persist=false), " +
 			"reply/notify datagrams, local-api, remote write datagrams of a bound peer mixed with local updates; every DataCopy result (before and after each update), every data-change event payload and every value returned by UpdateData is retained with its fingerprint " +
-			"and re-fingerprinted after every later update, at the end of the history and of the case; each case also drives one function without partial support through failing partial and non-persisting updates. " +
+			"and re-fingerprinted after every later update, at the end of the history and of the case; a third of the histories is BLIND (the monitor retains only event payloads, response-callback Data and values returned by UpdateData, starts from a full data set delivered through the path under test, " +
+			"prefers in-place shapes right after a full update and reads the store for the first time at the end of the history; store clauses are not judged there); each case also drives one function without partial support through failing partial and non-persisting updates. " +
 			"usecases: histories of 12-20 calls of AddUseCaseSupport/SetUseCaseAvailability/RemoveUseCaseSupport/RemoveAllUseCaseSupports on two entities and use-case replies of a peer, snapshots of nodeManagementUseCaseData retained. " +
 			"race: the same workloads with three reader goroutines encoding the retained values concurrently (race detector). " +
-			"A case is non-trivial if at least 200 fingerprint re-checks were made on at least 20 retained values and (lists) at least one non-persisting and one failed update were judged; distinct = distinct (part, function, sequence of (path, shape)).",
+			"A case is non-trivial if at least 200 fingerprint re-checks were made on at least 20 retained values and (lists) at least one non-persisting and one failed update were judged and at least two blind histories retained at least 10 values before their first read; distinct = distinct (part, function, sequence of (path, shape)).",
 		Assumptions: []string{
 			"a fingerprint is the canonical rendering of rig.Canon (follows pointers and slices; nil and empty list identified)",
 			"'reported as failed' = UpdateData returned an error, or the peer received an error result for its reply/notify/write",
-			"values returned by UpdateData are data handed to the application as well and are retained (signature prefix result/)",
+			"values returned by UpdateData and the Data of response callbacks are data handed to the application as well and are retained (signature prefixes result/, response-callback/)",
+			"re-fingerprinting a retained value is not an operation on the stack; DataCopy is (blind histories exist because a monitor that reads after every update can mask a lazily copying store)",
 			"a reader goroutine only reads values obtained before; the only writer to that memory can be the stack",
 		},
 		Parts: []rig.Part{
@@ -86,6 +99,17 @@ type c11Keeper struct {
 	hist    []string
 	pool    *c11Pool // shared with reader goroutines in the race part (nil otherwise)
 	changed int
+
+	blind       bool // a blind history is running: no read of the store until it is over
+	blindKept   int  // values retained during blind histories before the first read
+	blindChecks int  // re-fingerprints made while no read had happened yet
+
+	// response callback for reply datagrams (registered on the local client feature for the counter the
+	// replies reference): its Data is data handed to the application too
+	respCh      chan any
+	respFn      func(api.ResponseMessage)
+	respPending bool
+	respOff     bool
 }
 
 func (k *c11Keeper) keep(src string, v any, when string) {
@@ -95,6 +119,10 @@ func (k *c11Keeper) keep(src string, v any, when string) {
 	e := &c11Kept{src: src, v: v, fp: rig.CanonAny(v), when: when}
 	k.cur = append(k.cur, e)
 	k.kept++
+	if k.blind {
+		k.blindKept++
+		k.c.Count("blind_retained:"+src, 1)
+	}
 	if k.pool != nil {
 		k.pool.add(v)
 	}
@@ -104,6 +132,9 @@ func (k *c11Keeper) keep(src string, v any, when string) {
 func (k *c11Keeper) recheck(set []*c11Kept, by string) {
 	for _, e := range set {
 		k.checks++
+		if k.blind {
+			k.blindChecks++
+		}
 		if now := rig.CanonAny(e.v); now != e.fp {
 			k.changed++
 			k.c.Violate(e.src+"/changed-by/"+by, "%s: a value obtained from %s (%s) changed after a later %s\n was: %s\n now: %s\n history:\n   %s",
@@ -181,13 +212,15 @@ func c11Lists(c *rig.Ctx) {
 	k.recheck(k.old, "end-of-case")
 	c11Finish(c, k, &st, string(li.Fn))
 	c.Seen("functions", string(li.Fn))
-	c.NonTrivial(k.checks >= 200 && k.kept >= 20 && st.nonPersist > 0 && (st.failed > 0 || !lw.bound))
+	c.NonTrivial(k.checks >= 200 && k.kept >= 20 && st.nonPersist > 0 && (st.failed > 0 || !lw.bound) && st.blind >= 2 && k.blindKept >= 10)
 }
 
 type c11Stats struct {
 	nonPersist, failed, events int
+	blind                      int // blind histories
 	shapeSeq                   []byte
 	sample                     []string
+	blindSample                []string
 }
 
 func c11Finish(c *rig.Ctx, k *c11Keeper, st *c11Stats, what string) {
@@ -197,10 +230,17 @@ func c11Finish(c *rig.Ctx, k *c11Keeper, st *c11Stats, what string) {
 	c.Count("nonpersisting_updates_judged", int64(st.nonPersist))
 	c.Count("failed_updates_judged", int64(st.failed))
 	c.Count("event_payloads_retained", int64(st.events))
+	c.Count("blind_histories", int64(st.blind))
+	c.Count("blind_values_retained_before_first_read", int64(k.blindKept))
+	c.Count("blind_fingerprint_rechecks", int64(k.blindChecks))
+	if c.Failed() {
+		c.Count("cases_with_violations", 1)
+	}
 	hs := fnv.New64a()
 	hs.Write(st.shapeSeq)
 	c.Shape(fmt.Sprintf("%s/%x", what, hs.Sum64()))
-	c.Sample(map[string]any{"subject": what, "values_retained": k.kept, "fingerprint_rechecks": k.checks, "nonpersisting": st.nonPersist, "failed": st.failed, "event_payloads": st.events, "one_history": st.sample})
+	c.Sample(map[string]any{"subject": what, "values_retained": k.kept, "fingerprint_rechecks": k.checks, "nonpersisting": st.nonPersist, "failed": st.failed, "event_payloads": st.events, "one_history": st.sample,
+		"blind_histories": st.blind, "blind_values_retained": k.blindKept, "one_blind_history": st.blindSample})
 }
 
 // c11RunLists runs the list histories of one case (also used by the race part).
@@ -209,6 +249,25 @@ func c11RunLists(c *rig.Ctx, lw *listWorld, k *c11Keeper, histories int) (st c11
 	fn := li.Fn
 	canWrite := lw.bound
 	for h := 0; h < histories; h++ {
+		if r.Intn(3) == 0 {
+			// blind history: nothing is read, only what the stack hands out by itself is retained
+			bp := "remote-write"
+			switch x := r.Intn(20); {
+			case x < 5:
+				bp = "remote-api"
+			case x < 13 || !canWrite:
+				bp = "datagram"
+			}
+			c11BlindHistory(c, lw, k, &st, bp)
+			if len(st.blindSample) == 0 && len(k.hist) > 1 && !strings.HasPrefix(k.hist[1], "start: no data") {
+				st.blindSample = append([]string(nil), k.hist...)
+			}
+			if h%8 == 7 {
+				k.recheck(k.old, "later-history")
+			}
+			k.endHistory()
+			continue
+		}
 		path := ""
 		switch x := r.Intn(20); {
 		case x < 6:
@@ -314,6 +373,9 @@ func c11RunLists(c *rig.Ctx, lw *listWorld, k *c11Keeper, histories int) (st c11
 					continue
 				}
 				step = path + " " + string(cl)
+				if cl == model.CmdClassifierTypeReply && r.Intn(4) == 0 {
+					k.armResponse(lw)
+				}
 				lw.p.Tap.Take()
 				if rec := lw.p.Raw(b); rec != "" {
 					failed, errText = true, "panic: "+rec
@@ -321,6 +383,9 @@ func c11RunLists(c *rig.Ctx, lw *listWorld, k *c11Keeper, histories int) (st c11
 					failed, errText = true, "error result"
 				}
 				st.events += k.keepEvents(lw.w, fmt.Sprintf("event of step %d (%s)", s, cl))
+				if cl == model.CmdClassifierTypeReply && !failed {
+					k.collectResponse(fmt.Sprintf("Data of the response callback for the reply of step %d", s))
+				}
 			}
 			k.hist = append(k.hist, step+" "+u.String()+map[bool]string{true: " -> FAILED " + errText, false: ""}[failed])
 			after := read()
@@ -344,6 +409,222 @@ func c11RunLists(c *rig.Ctx, lw *listWorld, k *c11Keeper, histories int) (st c11
 		k.endHistory()
 	}
 	return st
+}
+
+// ---------------------------------------------------------------------------
+// blind histories
+
+// c11ReplyRef is the counter the reply datagrams built by listWorld.wire reference.
+const c11ReplyRef = model.MsgCounterType(77)
+
+// armResponse registers the monitor's response callback for the next accepted reply (at most one pending).
+func (k *c11Keeper) armResponse(lw *listWorld) {
+	if k.respPending || k.respOff {
+		return
+	}
+	if k.respFn == nil {
+		ch := make(chan any, 8)
+		k.respCh = ch
+		k.respFn = func(m api.ResponseMessage) { ch <- m.Data }
+	}
+	if err := lw.localCli.AddResponseCallback(c11ReplyRef, k.respFn); err == nil {
+		k.respPending = true
+	}
+}
+
+// collectResponse is called after an accepted reply: the armed callback is due; its Data is retained.
+func (k *c11Keeper) collectResponse(when string) {
+	if !k.respPending || k.respOff {
+		return
+	}
+	select {
+	case v := <-k.respCh:
+		k.respPending = false
+		k.keep("response-callback", v, when)
+		k.c.Count("response_callback_payloads_retained", 1)
+	case <-time.After(30 * time.Second):
+		// watchdog only: whether callbacks fire is C14's subject
+		k.c.Inconclusive("the response callback registered for an accepted reply was not invoked within 30s")
+		k.respOff = true
+	}
+}
+
+// shapes of rig.GenUpdate the model applies to the stored items in place: identifier-less partial,
+// partial with selector, delete elements, delete selector+elements
+var c11InPlaceShapes = []int{2, 3, 5, 6}
+
+// c11PresentIds: identifiers of the domain carried by items.
+func c11PresentIds(li *rig.ListInfo, items []reflect.Value) (ids []int) {
+	if len(li.Keys) == 0 {
+		return nil
+	}
+	for id := 0; id < c02Dom; id++ {
+		for _, it := range items {
+			if li.Matches(it, id) {
+				ids = append(ids, id)
+				break
+			}
+		}
+	}
+	return ids
+}
+
+// c11BlindHistory runs one history in which the monitor performs no read of the function's store:
+// it retains only what the stack hands out by itself (event payloads, response callback Data, values
+// returned by UpdateData), re-fingerprints that after every update, and reads the store when the history
+// is over. Store clauses (non-persisting, failed) cannot be judged without reading and are left to the
+// other histories; failed and non-persisting updates still occur and must not change retained values.
+func c11BlindHistory(c *rig.Ctx, lw *listWorld, k *c11Keeper, st *c11Stats, path string) {
+	li, r := lw.li, c.Rand
+	fn := li.Fn
+	k.blind = true
+	defer func() { k.blind = false }()
+	k.hist = []string{"BLIND history, path " + path + ": no read of the store before the end of the history"}
+	st.shapeSeq = append(st.shapeSeq, "|B"+path[:4]...)
+	st.blind++
+
+	// deliver applies one update through the path and retains what the stack hands out
+	deliver := func(u rig.Update, when string) (failed bool) {
+		fp, fd, _ := li.Filters(u)
+		mk := func() any { return li.MkList(rig.CloneItems(u.Items)) }
+		step, errText := path, ""
+		switch path {
+		case "remote-api":
+			if u.Kind != "full" && r.Intn(3) == 0 {
+				ret, e := lw.remote.UpdateData(false, fn, mk(), fp, fd)
+				k.hist = append(k.hist, "remote-api persist=false "+u.String())
+				c.Count("blind_nonpersisting_updates", 1)
+				if e == nil {
+					k.keep("result", ret, "returned by the non-persisting update of "+when)
+				}
+				k.recheck(k.cur, "blind/remote-api-nonpersisting/"+u.Kind)
+			}
+			ret, e := lw.remote.UpdateData(true, fn, mk(), fp, fd)
+			if e != nil {
+				failed, errText = true, e.String()
+			} else {
+				k.keep("result", ret, "returned by the update of "+when)
+			}
+		case "datagram", "remote-write":
+			cl, srcA, dstA := model.CmdClassifierTypeNotify, lw.remoteAddr, lw.localCli.Address()
+			if path == "remote-write" {
+				if when != "start" && r.Intn(10) < 4 {
+					// the application's own updates between the peer's writes
+					if u.Kind == "full" && r.Intn(2) == 0 {
+						lw.local.SetData(fn, mk())
+						step = "local-api SetData (between writes)"
+					} else {
+						if e := lw.local.UpdateData(fn, mk(), fp, fd); e != nil {
+							failed, errText = true, e.String()
+						}
+						step = "local-api (between writes)"
+					}
+					break
+				}
+				cl, srcA, dstA = model.CmdClassifierTypeWrite, lw.peerCli, lw.local.Address()
+			} else if r.Intn(2) == 0 {
+				cl = model.CmdClassifierTypeReply
+			}
+			b, _, mc, e := lw.wire(u, cl, srcA, dstA, true)
+			if e != nil {
+				c.Violate("harness-wire", "%v", e)
+				return true
+			}
+			step = path + " " + string(cl)
+			if cl == model.CmdClassifierTypeReply && r.Intn(2) == 0 {
+				k.armResponse(lw)
+			}
+			lw.p.Tap.Take()
+			if rec := lw.p.Raw(b); rec != "" {
+				failed, errText = true, "panic: "+rec
+			} else if res := rig.Classify(lw.p.Tap.Take(), mc); res.Errors > 0 {
+				failed, errText = true, "error result"
+			}
+			st.events += k.keepEvents(lw.w, fmt.Sprintf("event of %s (%s)", when, cl))
+			if cl == model.CmdClassifierTypeReply && !failed {
+				k.collectResponse("Data of the response callback for the reply of " + when)
+			}
+		}
+		if failed {
+			c.Count("blind_failed:"+path, 1)
+		}
+		k.hist = append(k.hist, step+" "+u.String()+map[bool]string{true: " -> FAILED " + errText, false: ""}[failed])
+		return failed
+	}
+	fullUpdate := func() rig.Update {
+		u, _ := li.GenUpdate(r, 0, c02Dom)
+		for try := 0; try < 4 && len(u.Items) == 0; try++ {
+			u, _ = li.GenUpdate(r, 0, c02Dom)
+		}
+		return u
+	}
+
+	var present []int  // identifiers of the last full data set
+	sameArray := false // the store still works on the list the last full data set arrived in (as far as a lazy stack is concerned)
+	if r.Intn(4) > 0 {
+		u := fullUpdate()
+		if !deliver(u, "start") {
+			present, sameArray = c11PresentIds(li, u.Items), true
+		}
+	} else if path == "remote-write" {
+		lw.local.SetData(fn, typedNil(li))
+		k.hist = append(k.hist, "start: no data")
+	} else {
+		lw.remote.UpdateData(true, fn, typedNil(li), nil, nil)
+		k.hist = append(k.hist, "start: no data")
+	}
+	k.recheck(k.cur, "blind/"+path+"/start")
+
+	steps := 6 + r.Intn(5)
+	for s := 0; s < steps; s++ {
+		var u rig.Update
+		ok := false
+		if sameArray && r.Intn(3) > 0 {
+			for _, i := range r.Perm(len(c11InPlaceShapes)) {
+				if sh := c11InPlaceShapes[i]; shapeAllowed(li, sh) {
+					if u, ok = li.GenUpdate(r, sh, c02Dom); ok {
+						break
+					}
+				}
+			}
+		}
+		if !ok && r.Intn(4) == 0 {
+			u, ok = fullUpdate(), true
+		}
+		if !ok {
+			if u, ok = genUpdate(c, li, c02Dom); !ok {
+				continue
+			}
+		}
+		// selectors mostly aim at an item that exists
+		if len(present) > 0 && r.Intn(4) > 0 {
+			if u.SelKey >= 0 {
+				u.SelKey = present[r.Intn(len(present))]
+			}
+			if u.DelSel >= 0 {
+				u.DelSel = present[r.Intn(len(present))]
+			}
+		}
+		st.shapeSeq = append(st.shapeSeq, ("," + u.Kind)...)
+		failed := deliver(u, fmt.Sprintf("step %d", s))
+		if !failed {
+			switch u.Kind {
+			case "full":
+				present, sameArray = c11PresentIds(li, u.Items), true
+			case "partial-sel", "partial-noid":
+			default:
+				sameArray = false
+			}
+		}
+		k.recheck(k.cur, "blind/"+path+"/"+u.Kind)
+	}
+	k.recheck(k.cur, "blind/"+path+"/end-of-history-before-the-first-read")
+	k.blind = false
+	if path == "remote-write" {
+		k.keep("datacopy-local", lw.local.DataCopy(fn), "first read, at the end of the blind history")
+	} else {
+		k.keep("datacopy-remote", lw.remote.DataCopy(fn), "first read, at the end of the blind history")
+	}
 }
 
 // c11NonListHistory drives one function without partial support: partial and non-persisting updates
